@@ -86,8 +86,13 @@ JudgeC18(run) ==
                  p \in {p \in (1..Len(L)) \X (1..Len(L)) : p[1] < p[2] /\ L[p[1]].ski = L[p[2]].ski
                                                            /\ StoreIdx(run, L[p[1]].ptr) > StoreIdx(run, L[p[2]].ptr)}}
         lastOf(k) == LET idx == {i \in 1..Len(L) : L[i].ski = k} IN IF idx = {} THEN "" ELSE L[CHOOSE i \in idx : \A j \in idx : j <= i].state
+        \* the registered connection of k (if any) has itself reported its current state: the attempt ran to a stable point
+        finReg(k) == run.steps[Len(run.steps)].svc[k].reg
+        upd(k) == {i \in 1..Len(run.steps) : run.steps[i].a.a = "StateUpdate" /\ SkiOfConn(run, run.steps[i].a.i) = k}
+        stablePoint(k) == finReg(k) = 0 \/ \E i \in upd(k) : run.steps[i].a.i = finReg(k)
         b2 == {<<"C18", "last-notification-not-current-state", k, lastOf(k), run.final[k]>> :
-                 k \in {k \in Skis : lastOf(k) # "" /\ NConnOf(run, k) = 1 /\ lastOf(k) # run.final[k]
+                 k \in {k \in Skis : lastOf(k) # "" /\ Len(run.steps) > 0 /\ stablePoint(k) /\ lastOf(k) # run.final[k]
+                                     /\ (NConnOf(run, k) = 1 \/ finReg(k) # 0)
                                      /\ \A i \in 1..Len(run.steps) :       \* no synchronous note for k after the last stored detail
                                            ~(run.steps[i].a.a \in {"Unregister", "Cancel", "Register"} /\ run.steps[i].a.k = k)}}
     IN  b1 \cup b2
